@@ -15,6 +15,12 @@ MODELLED = ("remote.go: PushOptions.Validate (refspec part), Remote.sendPack (de
             "Reverse (Model/RefSpec.v, Model/PushRules.v, Model/RevList.v). Not modelled, exercised only: addReachableTags "
             "(FollowTags), RequireRemoteRefs, updateRemoteReferenceStorage, the pack encoder, transports and the "
             "receive-pack servers (suite `wire`)")
+LEVEL_NOTE = ("partial by design (DESIGN.md §4.C38): the theorems cover the decision logic of Remote.sendPack on the model — every "
+              "command is a requested update carrying the advertised old value and is forced, lease-covered, or passes the tag and "
+              "fast-forward rules (fast-forward = ancestry in a non-shallow repository; the shallow relaxation and duplicate "
+              "destinations are refuted with witnesses), deletions are explicit or pruned, the pack covers the pushed history (C37) — "
+              "tied to remote.go by differential execution through a recording transport; the wire, the receive-pack servers and "
+              "FollowTags are exercised (suite wire), not proved. trusted: Coq 8.16.1 kernel; the correspondence harness; git 2.39.5")
 TRUSTED = [
     "C-impl: Remote.PushContext driven through a recording transport (client.WithTransport) vs Model/PushRules.push: sorted command list, packed object set, error class",
     "direct oracle: an independent python statement of the update rules (requested updates from refspecs, fast-forward by ancestry in the generated DAG, lease, tag, delete/prune rules) evaluated on the commands and pack the implementation produced",
